@@ -40,9 +40,10 @@ func c18Compare(c *core.Ctx, e *liquid.Engine, family, src string, env gen.Env, 
 		c.Skip("canonical realisation panics (C01's business)")
 		return
 	}
-	if family == "drops-typed" && (strings.Contains(strings.ToLower(base.Out), "map[") || strings.Contains(base.Out, "[[") || strings.Contains(base.Out, " []")) {
-		// a map, or an array of arrays turned into text: Go syntax, which no property defines
-		c.Skip("output prints a map or nested array in Go syntax (not defined by the properties)")
+	if family == "drops-typed" && strings.Contains(base.Out, "[") {
+		// a map or an array turned into text by a string filter: Go syntax ("[a 8]", "map[k:v]"), which no property
+		// defines (generated literal text never contains a bracket)
+		c.Skip("output spells a map or array in Go syntax (not defined by the properties)")
 		return
 	}
 	for a := 0; a < nAlt; a++ {
